@@ -37,7 +37,7 @@ struct JobResult {
 }
 
 fn cfgs_probe() -> Cfg {
-    Cfg { workers: 1, clients: 1, max_req: 1, mode: Mode::Generous }
+    Cfg { workers: 1, clients: 1, max_req: 1, mode: Mode::Generous, bulk: false }
 }
 
 fn run_job(h: &mut Harness, job: &Job) -> JobResult {
@@ -182,7 +182,22 @@ fn configs(tier: verif_common::Tier, shape: Option<&str>) -> Vec<Cfg> {
                 clients,
                 max_req,
                 mode,
+                bulk: false,
             });
+        }
+    }
+    if custom.is_empty() {
+        // BULK configurations: enough interchangeable connections to fill the worker queues (capacity 15)
+        let bulk: &[(u8, u8, &[Mode])] = if tier.is_thorough() {
+            &[(1, 8, &[Mode::Generous, Mode::Forced]), (1, 9, &[Mode::Generous]), (1, 15, &[Mode::Generous, Mode::Forced, Mode::Unbounded]),
+              (1, 16, &[Mode::Generous, Mode::Forced]), (1, 17, &[Mode::Generous]), (2, 17, &[Mode::Generous, Mode::Forced]), (2, 31, &[Mode::Generous])]
+        } else {
+            &[(1, 9, &[Mode::Generous]), (1, 16, &[Mode::Generous, Mode::Forced])]
+        };
+        for &(workers, clients, modes) in bulk {
+            for &mode in modes {
+                v.push(Cfg { workers, clients, max_req: 1, mode, bulk: true });
+            }
         }
     }
     v
@@ -193,7 +208,7 @@ fn configs(tier: verif_common::Tier, shape: Option<&str>) -> Vec<Cfg> {
 /// has to mirror (every later execution validates the choice event by event).
 fn calibrate(h: &mut Harness) -> bool {
     use Action::*;
-    let cfg = Cfg { workers: 1, clients: 1, max_req: 1, mode: Mode::Generous };
+    let cfg = Cfg { workers: 1, clients: 1, max_req: 1, mode: Mode::Generous, bulk: false };
     let mut schedule = vec![
         Connect(0), Send(0), RelA, RelA, RelW(0), RelW(0), Call { late: false }, RelA, RelA, RelA, RelW(0), RelW(0), RelW(0),
     ];
